@@ -12,20 +12,26 @@ package satellite
 //@ ensures r1 == nil ==> len(r0) == n && fresh(r0) && startOfSatelliteData + 18*n + 24 <= 8*len(bitStream)
 //@ ensures r1 != nil ==> len(r0) == 0
 //@ ensures[C04] (r1 == nil) == (startOfSatelliteData + 18*n + 24 <= 8*len(bitStream))
+//@ ensures[C04] r1 == nil ==> forall(k, 0, n, r0[k].ID == Satellites[k] && r0[k].RangeWholeMillis == bits(bitStream, startOfSatelliteData + 8*k, 8) && r0[k].RangeFractionalMillis == bits(bitStream, startOfSatelliteData + 8*n + 10*k, 10) && r0[k].LogLevel == logLevel)
 //@ loop 1
 //@ invariant 0 - 1 <= rangeindex && rangeindex <= n - 1 && (n == 0 || rangeindex < n)
 //@ invariant len(wholeMillis) == rangeindex + 1 && fresh(wholeMillis) && pos == startOfSatelliteData + 8*(rangeindex + 1)
 //@ invariant startOfSatelliteData + 18*n + 24 <= 8*len(bitStream)
+//@ invariant[C04] forall(k, 0, len(wholeMillis), wholeMillis[k] == bits(bitStream, startOfSatelliteData + 8*k, 8))
 //@ decreases n - rangeindex
 //@ loop 2
 //@ invariant 0 - 1 <= rangeindex && rangeindex <= n - 1 && (n == 0 || rangeindex < n)
 //@ invariant len(fractionalMillis) == rangeindex + 1 && fresh(fractionalMillis) && pos == startOfSatelliteData + 8*n + 10*(rangeindex + 1)
 //@ invariant startOfSatelliteData + 18*n + 24 <= 8*len(bitStream) && len(wholeMillis) == n
+//@ invariant[C04] forall(k, 0, len(wholeMillis), wholeMillis[k] == bits(bitStream, startOfSatelliteData + 8*k, 8)) && allocated(wholeMillis) && arrof(wholeMillis) != arrof(fractionalMillis)
+//@ invariant[C04] forall(k, 0, len(fractionalMillis), fractionalMillis[k] == bits(bitStream, startOfSatelliteData + 8*n + 10*k, 10))
 //@ decreases n - rangeindex
 //@ loop 3
 //@ invariant 0 - 1 <= rangeindex && rangeindex <= n - 1 && (n == 0 || rangeindex < n)
 //@ invariant len(satData) == rangeindex + 1 && fresh(satData)
 //@ invariant len(wholeMillis) == n && len(fractionalMillis) == n
+//@ invariant[C04] forall(k, 0, n, wholeMillis[k] == bits(bitStream, startOfSatelliteData + 8*k, 8) && fractionalMillis[k] == bits(bitStream, startOfSatelliteData + 8*n + 10*k, 10))
+//@ invariant[C04] forall(k, 0, len(satData), satData[k].ID == Satellites[k] && satData[k].RangeWholeMillis == bits(bitStream, startOfSatelliteData + 8*k, 8) && satData[k].RangeFractionalMillis == bits(bitStream, startOfSatelliteData + 8*n + 10*k, 10) && satData[k].LogLevel == logLevel)
 //@ decreases n - rangeindex
 
 //@ func (*Cell).String
